@@ -39,14 +39,17 @@ func NewSolicitMountedStreamWithErr(err error) SolicitMountedStream {
 
 // AcceptMountedStream claims ownership of the stream.
 func (s *solicitMountedStream) AcceptMountedStream() (link.MountedStream, bool, error) {
-	if s.err != nil {
-		return nil, false, s.err
-	}
 	verifhook.Point("solicit.accept.gap")
 
 	s.mu.Lock()
 	defer s.mu.Unlock()
 
+	// err is written by Close under mu: check it under mu as well, otherwise
+	// a concurrent Close can close the stream between the check and the lock
+	// and the closed stream would be returned to the caller.
+	if s.err != nil {
+		return nil, false, s.err
+	}
 	if s.accepted {
 		return nil, true, nil
 	}
